@@ -508,7 +508,7 @@ def ext_summaries(mod):
     return S
 
 
-def check_batch_inverse(rep, mod, cfg, sizes):
+def check_batch_inverse(rep, mod, cfg, sizes, extra=()):
     names = harness.family(mod, r'^Goldilocks3::batchInverse\(')
     rep.floor('batchInverse[%s]' % cfg, len(names), 1)
     for name in names:
@@ -518,7 +518,7 @@ def check_batch_inverse(rep, mod, cfg, sizes):
         if len(S) != 3:
             rep.incomplete('batchInverse:%s' % cfg, 'ext-batch-inverse', site, 'extension mul/inv/copy entry points not found')
             continue
-        for n, inplace in [(k, False) for k in sizes] + [(k, True) for k in sizes[:16]]:
+        for n, inplace in [(k, False) for k in sizes] + [(k, True) for k in sizes[:16]] + [(k, ip) for k in extra for ip in (False, True)]:
             tag = '%s/batchInverse size=%d%s' % (cfg, n, ' in place (res=src)' if inplace else '')
             try:
                 eff = harness.run_routine(mod, name, S, values={'size': n}, extents={'res': 24 * n, 'src': 24 * n},
@@ -566,7 +566,16 @@ def run(rep, tier, seed):
             check_inv(rep, mod, cfg, n)
         check_isone(rep, mod, cfg)
         sizes = list(range(1, 33)) if tier == 'quick' else list(range(1, 129)) + [200, 256]
-        check_batch_inverse(rep, mod, cfg, sizes)
+        # threshold-directed lengths: both sides of every integer constant the routine (and its local helpers) has that the
+        # pinned tree did not (a block length, a chunk size); in place as well
+        from .. import thresholds
+        ths = thresholds.new_thresholds('batchinv', configs=(cfg,))
+        xs, skipped = thresholds.batch_sizes(ths, tier)
+        if ths:
+            rep.note('threshold-directed lengths for batchInverse: new integer constants %s; lengths %s added (out of place and in place)' % (ths, xs))
+        if skipped:
+            rep.note('NOT DECIDED: constants %s are beyond the lengths this tier can explore' % skipped)
+        check_batch_inverse(rep, mod, cfg, sizes, extra=xs)
     rep.assumptions += ['x^3 - x - 1 is irreducible over F_p, hence t = -N(a) != 0 for a != 0 (mathematical fact, not checked here)',
                         'batchInverse: products of non-zero extension elements are non-zero (field)',
                         'Goldilocks::inv is exact on non-zero residues (C10) and fromString yields the residue of the parsed integer (C15)']
